@@ -3,10 +3,12 @@
 //!
 //!   h_codec replay    --cases F --out F --tmp DIR [--seed N] [--thorough] [--threads N]
 //!   h_codec handshake --cases F --out F
+//!   h_codec handover  --cases F --out F                       (handshake -> codec on one socket)
 //!   h_codec record    --out F --tmp DIR --seed N --seqs N       (direction B, conn::listen)
 //!   h_codec consts                                              (wire constants of the build)
 mod alloc_track;
 mod frames;
+mod handover;
 mod handshake;
 mod listenrec;
 mod run;
@@ -26,6 +28,7 @@ fn main() {
 	let rc = match args.pos.get(0).map(|s| s.as_str()) {
 		Some("replay") => run::replay(&args),
 		Some("handshake") => handshake::run(&args),
+		Some("handover") => handover::run(&args),
 		Some("record") => listenrec::record(&args),
 		Some("consts") => frames::consts(),
 		_ => {
